@@ -4,6 +4,7 @@ CONSTANTS
   MaxSub = 2
   Small = TRUE
   Deep = FALSE
+  Dump = FALSE
   OverwriteOnReturn = TRUE
 INVARIANTS UnionHolds NonEmptySets Inert DumpBehaviour
 PROPERTY Terminates
